@@ -38,7 +38,7 @@ class C20(Prop):
                   'against RxRSocket / ReactiveXClient over a real client (harness as server) and against both handler adapters behind a real server with a recording delegate.')
     level_note = 'Trusted: Lean kernel + standard axioms; Rx 3.2 / ReactiveX 4 operator internals; the delegation theorem is a table and says so.'
     design_ref = '§5 C20'
-    rule = ('both Rx versions x interaction (stream, channel inbound, response, fire-and-forget, metadata-push, setup) x element count 0/1/many x request limit 1..max x error position x '
+    rule = ('both Rx versions x interaction (stream, channel inbound, response, fire-and-forget, metadata-push, setup) x element count 0/1/many x request limit 1..max x error position (streams; response observables that fail at once, after their element, or later) x '
             'disposal moment x delivery pacing by the harness; non-trivial = more elements than the request limit, an error, a disposal or a one-way request through the handler adapter; '
             'distinct = distinct case')
     assumptions = []
@@ -67,7 +67,7 @@ class C20(Prop):
             elif k == 'honeway':
                 c.update(op=rng.choice(['fnf', 'mp', 'setup']))
             elif k == 'hresp':
-                c.update(data=rng.choice(['', 'aa']))
+                c.update(data=rng.choice(['', 'aa']), shape=rng.choice(['plain', 'plain', 'error', 'then-error', 'deferred', 'deferred-then-error']))
             else:
                 c.update(limit=rng.choice([1, 2, 3, 2 ** 31 - 1]), count=rng.choice([0, 1, 2, 3, 4, 6, 7]), end=rng.choice(['complete', 'flag']))
             out.append(c)
@@ -244,10 +244,33 @@ class C20(Prop):
 
         class D(L[4]):
             async def request_response(self, payload):
-                return rx.of(Payload(bytes.fromhex(case['data']))) if case['data'] else rx.empty()
+                one = rx.of(Payload(bytes.fromhex(case['data']))) if case['data'] else rx.empty()
+                shape = case.get('shape', 'plain')
+                if shape == 'plain':
+                    return one
+                if shape == 'error':
+                    return rx.throw(RuntimeError('boom'))
+                if shape == 'then-error':
+                    return rx.concat(one, rx.throw(RuntimeError('boom')))      # the observable fails after its element: the error is the outcome
+                return subject
+        subject = L[2]()
         t, server = await self._server(loop, case, D)
         t.deliver(engine.build_frame({'ty': 'REQUEST_RESPONSE', 'sid': 1, 'data': [3]}).serialize())
         await loop.settle()
+        if case.get('shape', 'plain').startswith('deferred'):
+            early = [engine.simnet_tok(e) for e in t.sent]
+            if case['data']:
+                subject.on_next(Payload(bytes.fromhex(case['data'])))
+                await loop.settle()
+            if case['shape'] == 'deferred-then-error':
+                subject.on_error(RuntimeError('boom'))
+            else:
+                subject.on_completed()
+            await loop.settle()
+            if early:
+                wire = ['EARLY'] + early
+                await server.close()
+                return {'wire': wire}
         wire = [engine.simnet_tok(e) for e in t.sent]
         await server.close()
         return {'wire': wire}
@@ -438,8 +461,11 @@ class C20(Prop):
                 add('one-way-request-answered-with-error:' + case['op'], str(obs['wire'][:2]))
         elif k == 'hresp':
             want = 'S:PAYLOAD:1:01%s0:0:0:%s' % ('1' if case['data'] else '0', ','.join(str(b) for b in bytes.fromhex(case['data'])) or '-')
-            if obs['wire'] != [want]:
-                add('handler-response-altered', 'delegate answered %r, wire %s' % (case['data'], obs['wire']))
+            if 'error' in case.get('shape', 'plain'):
+                if len(obs['wire']) != 1 or not obs['wire'][0].startswith('S:ERROR:1:'):
+                    add('handler-error-not-preserved', 'the delegate\'s response observable (%s, element %r) ended with an error, wire %s' % (case['shape'], case['data'], obs['wire']))
+            elif obs['wire'] != [want]:
+                add('handler-response-altered', 'delegate answered %r (%s), wire %s' % (case['data'], case.get('shape', 'plain'), obs['wire']))
         elif k == 'hstream':
             for credit, sent in obs['trace']:
                 if sent > credit:
